@@ -1011,6 +1011,13 @@ func (ce *CEnv) call(x *ECall) Val {
 		}
 		lk := fv.lget(ce.st, key, l.S)
 		var et types.Type = types.NewPointer(types.Typ[types.Int])
+		if lt := ce.typeByName("*list.Element"); lt != nil {
+			et = lt
+		} else if p := ce.fv.eng.packageByName("list", "container/list"); p != nil {
+			if tn, ok := p.Scope().Lookup("Element").(*types.TypeName); ok {
+				et = types.NewPointer(tn.Type())
+			}
+		}
 		if len(x.Args) > 1 {
 			et = arg(1).T // front(l, e): typed like the element e
 		}
@@ -1252,6 +1259,13 @@ func (ce *CEnv) specCall(sf *SpecFn, args []Expr) Val {
 		if sf.Result != "" {
 			if t := ce.typeByName(sf.Result); t != nil {
 				r = ce.coerce(r, t)
+				if r.T != nil {
+					_, rp := r.T.Underlying().(*types.Pointer)
+					_, tp := t.Underlying().(*types.Pointer)
+					if rp && tp {
+						r.T = t // declared pointer type wins (e.g. results of next()/front() views)
+					}
+				}
 			}
 		}
 		return r
